@@ -251,8 +251,9 @@ func (n *Net) extraNodes() []*Node {
 // CheckThreshold (C03; sync must be off so that every Put comes from aggregation): a node's first Put of round R requires
 // valid partials for exactly (R, prev-as-put) from >= t distinct live members whose delivery to that node started before the Put
 // (its own partial counts if it emitted one for (R, prev) no later than the step of the Put).
-// epochAt returns the epoch (polynomial, members, threshold) that is live for round R.
-func (n *Net) CheckThreshold(epochAt func(round uint64) *fx.Net) *Finding {
+// epochAt returns the epoch (polynomial, members, threshold) that the given node works with for round R (a node that left
+// the group keeps its old share; members of the new group switch at the transition round).
+func (n *Net) CheckThreshold(epochAt func(nd *Node, round uint64) *fx.Net) *Finding {
 	n.mu.Lock()
 	tap := append([]*PartialEvent(nil), n.Tap...)
 	n.mu.Unlock()
@@ -266,7 +267,11 @@ func (n *Net) CheckThreshold(epochAt func(round uint64) *fx.Net) *Finding {
 				continue
 			}
 			seen[put.Round] = true
-			e := epochAt(put.Round)
+			// a round that reached the node through a sync stream before this Put was not (necessarily) aggregated by it
+			if n.SyncedBefore(nd.Addr, put.Round, put.Seq) {
+				continue
+			}
+			e := epochAt(nd, put.Round)
 			prev := put.Prev
 			if fx.Chained(n.Cfg.Scheme) && len(prev) == 0 {
 				// trimmed stores strip nothing at Put time; chained puts always carry prev
